@@ -16,7 +16,7 @@ from ..runner import Result
 ID = 'C02'
 LEVEL = 'exploration'
 BUDGET = {'quick': 4000, 'thorough': 25000}
-RULE = ("Case = sender (SBlock whose 'set' event assigns the output, initialised by its regular "
+RULE = ("Case = sender (SBlock whose 'set' event assigns the output - and whose stop() may assign it once more -, initialised by its regular "
         "routine or by an event arriving during start-up; or a library block: Input fed by puts, Counter fed by "
         "inc/dec/put/reset, ValuePoll whose polls yield a value or nothing; or FuncBlock identity/bool/pair/const fed by an "
         "Input, one evaluation per value or several puts per evaluation) x 0-3 on_output x 0-3 "
@@ -63,6 +63,13 @@ class Probe(edzed.SBlock):
     def _event_set(self, *, value, **_data):
         self.assign(value)
         return True
+
+    def stop(self):
+        # a last assignment made by the clean-up (like an output block processing its stop_data)
+        last = getattr(self, 'x_last', UNDEF)
+        if last is not UNDEF:
+            self.assign(last)
+        super().stop()
 
 
 class PProbe(edzed.AddonPersistence, Probe):
@@ -117,6 +124,9 @@ def cases(draw):
         if case['init'] == 'regular' and draw(st.integers(0, 3)) == 0:
             # a saved state is restored first (possibly failing after it has set the output)
             case['restore'] = {'idx': draw(st.integers(0, len(POOL) - 1)), 'damaged': draw(st.booleans())}
+        if draw(st.integers(0, 2)) == 0:
+            # the output changes once more while the simulation is being stopped
+            case['stop_assign'] = [draw(st.integers(0, len(POOL) - 1)), draw(st.booleans())]
     elif kind == 'lib':
         # a library block as the sender: every accepted put / every counter event / every poll that
         # yields a value is one output assignment
@@ -210,16 +220,17 @@ def execute(case):
         if case['kind'] == 'sblock':
             objs = [mkval(*h) for h in case['hist']]
             assigned.extend(objs)
+            last = mkval(*case['stop_assign']) if case.get('stop_assign') else UNDEF
             first = objs[0] if case['init'] == 'regular' else UNDEF
             if case.get('restore'):
                 robj = mkval(case['restore']['idx'], False)
                 assigned.insert(0, robj)
                 snd = PProbe('snd', on_output=oo, on_every_output=eo, persistent=True,
-                             x_log=log, x_marks=marks, x_first=first)
+                             x_log=log, x_marks=marks, x_first=first, x_last=last)
                 circuit.set_persistent_data({snd.key: {'v': robj, 'damaged': case['restore']['damaged']}})
             else:
                 snd = Probe('snd', on_output=oo, on_every_output=eo,
-                            x_log=log, x_marks=marks, x_first=first)
+                            x_log=log, x_marks=marks, x_first=first, x_last=last)
             edzed.Input('dummy', initdef=0)
             sim = harness.Running(wait=False)
             await sim.__aenter__()
@@ -239,6 +250,9 @@ def execute(case):
                 if circuit.error is not None:
                     break
             info['final'] = snd.output
+            if last is not UNDEF:
+                assigned.append(last)
+                info['final_after_stop'] = snd
         elif case['kind'] == 'lib':
             objs = [mkval(*h) for h in case['hist']]
             edzed.Input('dummy', initdef=0)
@@ -329,6 +343,8 @@ def execute(case):
         info['error'] = repr(circuit.error) if circuit.error is not None else None
         err = await sim.stop()
         info['stop_error'] = repr(err) if err is not None else None
+        if 'final_after_stop' in info:
+            info['final'] = info.pop('final_after_stop').output
 
     harness.run_case(scenario)
     if 'init_error' in info:
@@ -446,6 +462,8 @@ def execute(case):
         res.classes.append('filters')
     if case['kind'] == 'sblock' and case['init'] == 'event':
         res.classes.append('initialised by event')
+    if case.get('stop_assign'):
+        res.classes.append('assignment during the clean-up')
     if case.get('restore'):
         res.classes.append('saved state restored first' + (' (restoration fails after the assignment)'
                                                            if case['restore']['damaged'] else ''))
